@@ -1241,7 +1241,7 @@ def run_doc(case, drv):
     res.stats['accepted'] += 1
     if case.get('damage'):
         res.stats[f'damage_accepted_{case["damage"]}'] += 1
-    ml, mlerr = _model(drv, OP_TO_LEGACY, y)
+    ml, mlerr = _model(drv, 'c18.to_legacy', y)
     _cmp_conv(res, 'yang_to_legacy', l, lerr, ml, mlerr)
     if lerr is not None:
         res.fail(f'accepted document cannot be converted back: yang_to_legacy raises {lerr}')
@@ -1252,14 +1252,14 @@ def run_doc(case, drv):
     _cmp_conv(res, 'legacy_to_yang(yang)', y2, y2err, *_model(drv, 'c18.to_yang', y))
     l2, l2err = safe_y2l(l)
     l2msg = LAST_MSG[0]
-    _cmp_conv(res, 'yang_to_legacy(legacy)', l2, l2err, *_model(drv, OP_TO_LEGACY, l))
+    _cmp_conv(res, 'yang_to_legacy(legacy)', l2, l2err, *_model(drv, 'c18.to_legacy', l))
     y3, y3err = _impl(legacy_to_yang, l)
     y3msg = LAST_MSG[0]
     _cmp_conv(res, 'legacy_to_yang(roundtrip)', y3, y3err, *_model(drv, 'c18.to_yang', l))
     # the loader path on the legacy form itself (what load_gnpy_json does with a legacy file)
     l0, l0err = safe_y2l(d)
     l0msg = LAST_MSG[0]
-    _cmp_conv(res, 'yang_to_legacy(original)', l0, l0err, *_model(drv, OP_TO_LEGACY, d))
+    _cmp_conv(res, 'yang_to_legacy(original)', l0, l0err, *_model(drv, 'c18.to_legacy', d))
     # --- monitor: idempotence
     def idem(what, got, err, want, msg):
         if err is not None:
@@ -1361,6 +1361,9 @@ def run_loaders(res, kind, d, l, rounded=True, order_cls=False):
             from gnpy.tools.json_io import network_to_json
             net = network_from_json(doc, nets.eqpt('eqpt_config_multiband.json'))
             j = network_to_json(net)
+            if order_cls:
+                for e in j['elements']:
+                    e.get('params', {}).pop('raman_coefficient', None)   # derived from the mirrored profile, see _DERIVED
             return {'elements': {e['uid']: canon_obj(e) for e in j['elements']},
                     'connections': sorted((c['from_node'], c['to_node']) for c in j['connections']),
                     'name': net.graph['network_name'],
@@ -1406,12 +1409,11 @@ def run_loaders(res, kind, d, l, rounded=True, order_cls=False):
     if order_cls:
         # the two documents differ only in the serialisation order of keyed YANG lists: lists of objects are compared as
         # multisets, numeric arrays (where the position is the meaning) as they are
-        a, b = _sort_object_lists(a), _sort_object_lists(b)
+        a, b = _sort_object_lists(_pairs_order_free(a)), _sort_object_lists(_pairs_order_free(b))
     df = diff_obj(a, b)
     if df and order_cls:
         res.fail(f'serialisation order: the loaders build different objects at {df[0]}: {str(df[1])[:100]} / {str(df[2])[:100]} '
-                 'when the keyed lists of the YANG document are serialised in another order',
-                 cls=F11 if re.search(r'loss_coef|f_loss_ref|raman_coefficient|g0|frequency_offset', df[0]) else 'unlisted')
+                 'when the keyed lists of the YANG document are serialised in another order')
         return
     if df:
         cls = 'unlisted'
@@ -1429,6 +1431,28 @@ def run_loaders(res, kind, d, l, rounded=True, order_cls=False):
         res.fail(f'loaders: objects differ at {where}: legacy form {str(df[1])[:120]} / through YANG {str(df[2])[:120]}', cls=cls)
     if kind == 'equipment':
         check_aliases(res, d, b)
+
+
+# parallel lists that denote a mapping key -> value (legacy spelling of a frequency-keyed YANG list, and the arrays the
+# loaders copy them into): compared as sets of pairs.  Arrays DERIVED from them under the legacy convention of ascending
+# order (the mirrored Raman profile) are not a function of the mapping alone for an unsorted legacy list - true for a
+# hand-written legacy document as well - and are left out of the order comparison.
+_PAIRS = [('frequency', 'value'), ('frequency_offset', 'g0'), ('frequency_offset', 'cr'), ('_f_loss_ref', '_loss_coef')]
+_DERIVED = ('_raman_coefficient', '_g0', '_raman_reference_frequency')
+
+
+def _pairs_order_free(x, top=True):
+    if isinstance(x, dict):
+        out = {k: _pairs_order_free(v, False) for k, v in x.items() if k not in _DERIVED}
+        for ka, kb in _PAIRS:
+            a, b = out.get(ka), out.get(kb)
+            if isinstance(a, list) and isinstance(b, list) and len(a) == len(b) and not any(isinstance(e, (dict, list)) for e in a + b):
+                pairs = sorted(zip(a, b), key=lambda p_: (p_[0] is None, p_[0], json.dumps(p_[1])))
+                out[ka], out[kb] = [p_[0] for p_ in pairs], [p_[1] for p_ in pairs]
+        return out
+    if isinstance(x, list):
+        return [_pairs_order_free(e, False) for e in x]
+    return x
 
 
 def _sort_object_lists(x):
@@ -1620,16 +1644,6 @@ def order_free(x):
     return x
 
 
-F11 = 'F11-yang-frequency-list-order'
-# The model follows the code: /repo takes the entries of the frequency-keyed YANG lists (loss_coef_per_frequency,
-# g0_per_frequency, raman_efficiency) in document order (open finding F11).  When the proposed repair
-# (corpus/C18/proposed_fix_f11.diff.txt) is committed there, set this to True: the model's sorted back-converters
-# (Gnpy.Yang.yangToLegacySorted) are then used and the `open:` line of known_findings.txt becomes `fixed:`.
-import os as _os
-CODE_SORTS_FREQUENCY_LISTS = _os.environ.get('VERIF_C18_F11_REPAIRED') == '1'
-OP_TO_LEGACY = 'c18.to_legacy_sorted' if CODE_SORTS_FREQUENCY_LISTS else 'c18.to_legacy'
-
-
 def run_permuted(case, drv):
     import random
     from gnpy.tools.convert_legacy_yang import legacy_to_yang
@@ -1652,7 +1666,7 @@ def run_permuted(case, drv):
         return res
     l, lerr = safe_y2l(y)
     lp, lperr = safe_y2l(yp)
-    _cmp_conv(res, 'yang_to_legacy(permuted)', lp, lperr, *_model(drv, OP_TO_LEGACY, yp))
+    _cmp_conv(res, 'yang_to_legacy(permuted)', lp, lperr, *_model(drv, 'c18.to_legacy', yp))
     if lerr is not None:
         return res
     if lperr is not None:
